@@ -133,6 +133,16 @@ class Merge(Expr):
         return False
 
     def _predicate_columns(self, predicate):
+        for e in predicate.walk():
+            # a term that is not elementwise in the join result (a reduction such
+            # as ``m.a.mean()``) ranges over all rows of the join: it cannot be
+            # evaluated on one input instead
+            if (
+                not isinstance(e, Elemwise)
+                and e._name != self._name
+                and any(n._name == self._name for n in e.walk())
+            ):
+                return None
         if isinstance(predicate, (Projection, Unaryop, Isin)):
             return self._get_original_predicate_columns(predicate)
         elif isinstance(predicate, Binop):
